@@ -8,6 +8,7 @@ import (
 	"strings"
 	"sync"
 
+	"github.com/lidofinance/dc4bc/client/types"
 	sif "github.com/lidofinance/dc4bc/fsm/state_machines/signing_proposal_fsm"
 	fsmtypes "github.com/lidofinance/dc4bc/fsm/types"
 	"github.com/lidofinance/dc4bc/fsm/types/requests"
@@ -76,7 +77,10 @@ type SignCfg struct {
 	Proposers []int // nodes allowed to propose (nil: node 0 only)
 	Lag       []int // nodes whose polls are explicit actions; all others poll eagerly
 	Silent    []int // participants whose operator never answers signing operations
-	MaxStates int
+	// Truncating participants answer with partial signatures for the FIRST message of the batch
+	// only (valid shares, incomplete list) — a Byzantine but properly signed contribution
+	Truncating []int
+	MaxStates  int
 }
 
 func (c SignCfg) String() string {
@@ -84,7 +88,11 @@ func (c SignCfg) String() string {
 	for _, b := range c.Batches {
 		ids = append(ids, b.ID)
 	}
-	return fmt.Sprintf("n=%d t=%d batches=%v proposers=%v lag=%v silent=%v", c.N, c.T, ids, c.Proposers, c.Lag, c.Silent)
+	extra := ""
+	if len(c.Truncating) > 0 {
+		extra = fmt.Sprintf(" truncating=%v", c.Truncating)
+	}
+	return fmt.Sprintf("n=%d t=%d batches=%v proposers=%v lag=%v silent=%v%s", c.N, c.T, ids, c.Proposers, c.Lag, c.Silent, extra)
 }
 
 // SignWorld is a set of worker worlds that all completed the same real DKG.
@@ -219,7 +227,11 @@ func (sw *SignWorld) Model(cfg SignCfg, check func(k *worldx.Worker, s *worldx.S
 					continue
 				}
 				for _, op := range k.Pending(s, i) {
-					c, apiErr, err := k.OperateOp(s, i, op.ID, nil)
+					var mutate func(*types.Operation)
+					if contains(cfg.Truncating, i) {
+						mutate = truncatePartials
+					}
+					c, apiErr, err := k.OperateOp(s, i, op.ID, mutate)
 					if err != nil {
 						return nil, err
 					}
@@ -244,6 +256,18 @@ func (sw *SignWorld) Model(cfg SignCfg, check func(k *worldx.Worker, s *worldx.S
 			}
 			return out, nil
 		},
+	}
+}
+
+// truncatePartials keeps only the first partial signature of a signing result.
+func truncatePartials(res *types.Operation) {
+	for i := range res.ResultMsgs {
+		var req requests.SigningProposalBatchPartialSignRequests
+		if json.Unmarshal(res.ResultMsgs[i].Data, &req) != nil || len(req.PartialSigns) < 2 {
+			continue
+		}
+		req.PartialSigns = req.PartialSigns[:1]
+		res.ResultMsgs[i].Data, _ = json.Marshal(req)
 	}
 }
 
